@@ -75,3 +75,34 @@ func ZZ_H18a_RetryableStatus() {
 		zzvrt.Assert(resp.StatusCode == code, "http: the response finally returned is the last attempt's")
 	}
 }
+
+// H18d: through the real retry policy: the wait scheduled after a 429/503 with Retry-After: n is at
+// least n seconds, computed from the response of the attempt that just failed.
+func ZZ_H18d_RetryAfterScheduled() {
+	code := []int{429, 503}[zzvrt.Choose("status", 2)]
+	secs := []string{"1", "2", "120"}[zzvrt.Choose("retry-after", 3)]
+	want := map[string]time.Duration{"1": time.Second, "2": 2 * time.Second, "120": 120 * time.Second}[secs]
+	var scheduled []time.Duration
+	rp := RetryPolicyBuilder().WithMaxRetries(2).OnRetryScheduled(func(e failsafe.ExecutionScheduledEvent[*http.Response]) {
+		scheduled = append(scheduled, e.Delay)
+	}).Build()
+	calls := 0
+	resp, err := failsafe.NewExecutor[*http.Response](rp).Get(func() (*http.Response, error) {
+		calls++
+		if calls == 1 {
+			return &http.Response{StatusCode: 500, Header: http.Header{}}, nil // no Retry-After: no computed delay
+		}
+		if calls == 2 {
+			return &http.Response{StatusCode: code, Header: http.Header{"Retry-After": []string{secs}}}, nil
+		}
+		return &http.Response{StatusCode: 200, Header: http.Header{}}, nil
+	})
+	zzvrt.Assert(err == nil, "http: the final successful response is returned")
+	zzvrt.Assert(resp.StatusCode == 200, "http: the response finally returned is the last attempt's")
+	zzvrt.Assert(calls == 3, "http: 429 and 5xx except 501 are retried")
+	zzvrt.Assert(len(scheduled) == 2, "http: one scheduled retry per retryable response")
+	if len(scheduled) == 2 {
+		zzvrt.Assert(scheduled[0] == 0, "http: no delay is computed without a Retry-After header")
+		zzvrt.Assert(scheduled[1] >= want, "http: the retry waits at least the Retry-After given in seconds")
+	}
+}
